@@ -237,12 +237,18 @@ impl Runtime {
                     .unwrap_or_else(|err| error!("scher.initialize upsert={}", err));
 
                 let ctx = e.create_context();
+                let state = e.state();
                 // run the hook events
                 e.run_hooks(&ctx)
                     .unwrap_or_else(|err| error!("scher.initialize hooks={}", err));
 
                 // check task is allowed to emit message to client
-                if !e.state().is_pending() && !e.state().is_running() && !e.is_emit_disabled() {
+                // (a catch hook that took the error has moved the task on and reported its new state itself)
+                if e.state() == state
+                    && !e.state().is_pending()
+                    && !e.state().is_running()
+                    && !e.is_emit_disabled()
+                {
                     let msg = e.create_message();
                     debug!("emit_message:{msg:?}");
                     rt.emitter().emit_message(&msg);
